@@ -32,12 +32,32 @@ static ByteBuffer lend_buffer(Source *) { return *g_lent; }
 const std::vector<std::string> HUGE_OPS = {"put_huge", "get_huge", "put_atmost_huge", "get_atmost_huge"};
 static uint8_t put_pattern(size_t opi, size_t j) { return (uint8_t)(0x5a ^ stream_octet(opi * 977u + j * 3u + 1u)); }
 
+// a second task scheduled at a seam point (see SimSink::maybe_intrude): plumbing between endpoints of its own
+struct EpIntruder { Ctx *c; int64_t arg; };
+static void second_plumbing_job(void *a) {
+    EpIntruder &I = *(EpIntruder *)a; Ctx &c = *I.c;
+    SimSource s; SimSink k; s.c = &c; k.c = &c; s.octet_kind = (I.arg & 1) != 0; k.octet_kind = (I.arg & 2) != 0;
+    const size_t n = 3 + (size_t)((I.arg >> 2) & 7);
+    s.data.resize(n + 2); for (size_t i = 0; i < s.data.size(); ++i) s.data[i] = (uint8_t)(0x77 ^ (i * 29 + (size_t)I.arg));
+    Source so; Sink si; s.bind(&so); k.bind(&si);
+    unsigned char auxmem[4]; ByteBuffer ab; ab.data = auxmem; ab.size = 4; ab.used = 1 + (size_t)((I.arg >> 5) & 3); ab.offset = 0;
+    ssize_t rc;
+    switch ((I.arg >> 7) % 4) {
+    case 0: rc = sts_n_aux(&so, &si, &ab, n); break;
+    case 1: rc = sts_n_cbc(&so, &si, n); break;
+    case 2: rc = sts_n(&so, &si, n); break;
+    default: { unsigned char tmp[16]; rc = source_get_chunk(&so, tmp, n); if (rc == (ssize_t)n) rc = sink_put_chunk(&si, tmp, n); break; }
+    }
+    COUNT("probe.second_plumbing_job_during_a_sink_call");
+    if (rc != (ssize_t)n || k.got.size() != n || !bytes_eq(k.got.data(), s.data.data(), n)) c.fail("intruder.plumbing", "a transfer of %zu octets between endpoints of a second task, run while another task's sink call was pending, came out wrong (rc %zd, %zu octets)", n, rc, k.got.size());
+}
+
 struct EpHarness : Harness {
     const char *name() const override { return "epsim"; }
     std::vector<std::string> props() const override { return {"C17"}; }
     std::vector<std::string> probes(const std::string &) const override {
         return {"eintr_retried", "eagain_retried", "zero_return_retried", "partial_then_rest", "hard_error_after_prefix", "octet_driver_through_chunk_api",
-                "chunk_driver_through_octet_api", "aux_smaller_than_n_multiple_rounds", "drain_end_mid_chunk", "drain_to_end_of_stream", "invalid_count_refused", "source_lends_its_buffer", "stream_in_library_buffer_source", "stream_in_library_chunk_source", "output_in_library_buffer_sink", "chunk_list_with_empty_chunk", "trivial_endpoint", "endpoints_from_static_initialisers", "count_of_64k_octets_or_more_really_moved", "huge_transfer_in_one_call", "huge_transfer_in_pieces", "huge_piece_of_4gib_or_more"};
+                "chunk_driver_through_octet_api", "aux_smaller_than_n_multiple_rounds", "drain_end_mid_chunk", "drain_to_end_of_stream", "invalid_count_refused", "source_lends_its_buffer", "stream_in_library_buffer_source", "stream_in_library_chunk_source", "output_in_library_buffer_sink", "chunk_list_with_empty_chunk", "trivial_endpoint", "endpoints_from_static_initialisers", "second_plumbing_job_during_a_sink_call", "count_of_64k_octets_or_more_really_moved", "huge_transfer_in_one_call", "huge_transfer_in_pieces", "huge_piece_of_4gib_or_more"};
     }
     uint64_t runs(const std::string &, const Tier &t) const override { return t.thorough() ? 12000000 : 3000000; }
     unsigned time_limit(const Json &plan) const override { const Json &ops = plan.get("ops"); for (size_t i = 0; i < ops.size(); ++i) if (ops.at(i).gets("op") == "n_cbc_long") return 1500; return 60; }
@@ -124,6 +144,7 @@ struct EpHarness : Harness {
             bool chunky = k == "get_chunk" || k == "put_chunk";
             if (chunky && r.chance(1, 24)) n = r.chance(1, 2) ? 0 : -1;  // invalid counts: 0 and SSIZE_MAX+1
             o["n"] = (long long)n;
+            if (r.chance(1, 6)) { Json ij = Json::arr(); ij.push((long long)r.below(6)); ij.push((long long)r.below(1 << 20)); o["intrude"] = ij; }
             o["ss"] = gen_script(r, maxscript, hard, so);
             o["ks"] = gen_script(r, maxscript, hard, ko);
             if (k.size() > 4 && (k.compare(k.size() - 4, 4, "_aux") == 0 || k.compare(k.size() - 3, 3, "_gb") == 0)) {
@@ -258,6 +279,9 @@ struct EpHarness : Harness {
         if (n > (1u << 17) && !invalid) n = 1u << 17;
         if (n >= 65536 && !invalid && op.find("_huge") == std::string::npos) COUNT("probe.count_of_64k_octets_or_more_really_moved");
         R.src.begin_op(o.get("ss")); R.snk.begin_op(o.get("ks"));
+        EpIntruder intr{&c, 0};
+        R.snk.intruder = nullptr;
+        if (o.has("intrude")) { intr.arg = o.get("intrude").ati(1, 0) & 0xfffff; R.snk.intrude_at = o.get("intrude").ati(0, 0) & 15; R.snk.intruder = second_plumbing_job; R.snk.intruder_arg = &intr; }
         const size_t sp0 = R.src.pos;
         const size_t remaining = R.src.data.size() - sp0;
         // an auxiliary-buffer operation may move up to its region per round, whatever n says
